@@ -26,6 +26,7 @@ import (
 	"github.com/resonatehq/resonate/verifharness/internal/dump"
 	"github.com/resonatehq/resonate/verifharness/internal/gen"
 	"github.com/resonatehq/resonate/verifharness/internal/lean"
+	"github.com/resonatehq/resonate/verifharness/internal/monitor"
 
 	_ "github.com/mattn/go-sqlite3"
 )
@@ -166,6 +167,8 @@ func errClassOK(modelErr string, implText string) bool {
 	return false
 }
 
+var monitors = map[string]bool{}
+
 type runner struct {
 	drv    *lean.Driver
 	dir    string
@@ -186,8 +189,18 @@ func (r *runner) runScript(script [][][]*t_aio.Command, dialect string) (int, M)
 	if _, _, err := r.drv.Call(M{"op": "reset"}); err != nil {
 		return 0, M{"harness": err.Error()}
 	}
+	var prevDump M
 	for bi, txs := range script {
 		obs := im.batch(txs)
+		if d, ok := obs["db"].(M); ok {
+			if nd, err := lean.NormalizeValue(d); err == nil {
+				cur := nd.(map[string]any)
+				if pid, what := monitor.Check(monitors, prevDump, cur); pid != "" {
+					return bi, M{"what": "property monitor failed on the implementation", "property": pid, "diff": what, "property_violation": true}
+				}
+				prevDump = cur
+			}
+		}
 		rep, _, err := r.drv.Call(batchJSON(txs, dialect))
 		if err != nil {
 			return bi, M{"harness": err.Error(), "impl": obs}
@@ -380,7 +393,13 @@ func main() {
 	replay := flag.String("replay", "", "replay a script file instead of generating")
 	corpus := flag.String("corpus", "", "directory of script files to run first")
 	out := flag.String("out", "", "summary JSON path")
+	mon := flag.String("monitor", "", "comma-separated property ids whose monitors run on the implementation dumps")
 	flag.Parse()
+	for _, m := range strings.Split(*mon, ",") {
+		if m != "" {
+			monitors[m] = true
+		}
+	}
 	slog.SetDefault(slog.New(slog.NewTextHandler(io.Discard, nil)))
 
 	if err := os.MkdirAll(*work, 0o755); err != nil {
@@ -420,6 +439,7 @@ func main() {
 		summary["divergence_file"] = path
 		summary["divergence"] = info2["what"]
 		summary["diff"] = info2["diff"]
+		summary["property_violation"] = info2["property_violation"] == true
 	}
 
 	files := []string{}
